@@ -187,18 +187,28 @@ Definition exact_on_seconds (o : fops) (mult : Z) : Prop :=
 
 (* ================================================================== proofs *)
 
+(* the integers s, s+1, ..., s+n-1 *)
+Fixpoint zseq (n : nat) (s : Z) : list Z :=
+  match n with O => [] | S k => s :: zseq k (s + 1) end.
+
+Lemma zseq_in n : forall s z, s <= z < s + Z.of_nat n -> In z (zseq n s).
+Proof.
+  induction n as [|k IH]; intros s z H; [lia|]. cbn [zseq].
+  destruct (Z.eq_dec z s); [now left|right; apply IH; lia].
+Qed.
+
 Definition era_ok (doe : Z) : bool :=
   let '(yoe, m, d) := ymd_of_doe doe in
   (0 <=? yoe) && (yoe <? 400) && (1 <=? m) && (m <=? 12) && (1 <=? d) && (d <=? 31)
   && (doe_of_ymd yoe m d =? doe).
 
-Lemma era_check : forallb era_ok (upto (Z.to_nat era_days)) = true.
+Lemma era_check : forallb era_ok (zseq (Z.to_nat era_days) 0) = true.
 Proof. vm_compute. reflexivity. Qed.
 
 Lemma era_ok_all doe : 0 <= doe < era_days -> era_ok doe = true.
 Proof.
-  intros H. pose proof era_check as A. rewrite forallb_forall in A. apply A, upto_in.
-  rewrite Z2Nat.id by (unfold era_days; lia). exact H.
+  intros H. pose proof era_check as A. rewrite forallb_forall in A. apply A, zseq_in.
+  rewrite Z2Nat.id by (unfold era_days; lia). lia.
 Qed.
 
 Lemma civil_fields z :
@@ -245,9 +255,9 @@ Proof. induction n; cbn [pad length]; [reflexivity|]. now rewrite IHn. Qed.
 Definition pad_ok (n : nat) (v : Z) : bool :=
   match digits_value (pad n v) 0 with Some v' => v' =? v | None => false end.
 
-Lemma pad2_check : forallb (pad_ok 2) (upto 100) = true.
+Lemma pad2_check : forallb (pad_ok 2) (zseq 100 0) = true.
 Proof. vm_compute. reflexivity. Qed.
-Lemma pad4_check : forallb (pad_ok 4) (upto (Z.to_nat 10000)) = true.
+Lemma pad4_check : forallb (pad_ok 4) (zseq (Z.to_nat 10000) 0) = true.
 Proof. vm_compute. reflexivity. Qed.
 
 Lemma take_digits_pad n v rest :
@@ -262,13 +272,13 @@ Qed.
 Lemma take_digits_pad2 v rest : 0 <= v < 100 -> take_digits 2 (pad 2 v ++ rest) = Some (v, rest).
 Proof.
   intros H. apply take_digits_pad. pose proof pad2_check as A. rewrite forallb_forall in A.
-  apply A, upto_in. cbn. lia.
+  apply A, zseq_in. cbn. lia.
 Qed.
 
 Lemma take_digits_pad4 v rest : 0 <= v < 10000 -> take_digits 4 (pad 4 v ++ rest) = Some (v, rest).
 Proof.
   intros H. apply take_digits_pad. pose proof pad4_check as A. rewrite forallb_forall in A.
-  apply A, upto_in. rewrite Z2Nat.id by lia. exact H.
+  apply A, zseq_in. rewrite Z2Nat.id by lia. lia.
 Qed.
 
 Definition dt_fields_ok (t : dt) : Prop :=
